@@ -128,8 +128,10 @@ impl<T> TimeOutList<T> {
     // this can be called in any thread
     // return true if we need to recall next expire
     pub fn add_timer(&self, dur: Duration, data: T) -> (TimeoutHandle<T>, bool) {
-        let interval = dur.as_nanos() as u64;
-        let time = now() + interval;
+        // the largest durations (`Duration::MAX`) don't fit into the u64 nanoseconds
+        // of the timer: they must neither wrap around (fire at once) nor overflow
+        let interval = dur.as_nanos().min(u64::MAX as u128) as u64;
+        let time = now().saturating_add(interval);
         //println!("add timer = {:?}", time);
 
         let timeout = TimeoutData { time, data };
